@@ -319,6 +319,13 @@ class DictWriter:
                 "callee": self.write_value_ref(instruction.callee),
                 "arguments": json_arguments,
             }
+        elif isinstance(instruction, ir.CopyBlob):
+            json_instruction = {
+                "kind": "copyblob",
+                "dst": self.write_value_ref(instruction.dst),
+                "src": self.write_value_ref(instruction.src),
+                "amount": instruction.amount,
+            }
         elif isinstance(instruction, ir.Phi):
             json_phi_inputs = []
             for phi_input_block, phi_input_value in instruction.inputs.items():
@@ -592,6 +599,11 @@ class DictReader:
                 arguments.append(self.get_value_ref(json_argument))
             instruction = ir.FunctionCall(callee, arguments, name, ty)
             self.register_value(instruction)
+        elif itype == "copyblob":
+            dst = self.get_value_ref(json_instruction["dst"])
+            src = self.get_value_ref(json_instruction["src"])
+            amount = json_instruction["amount"]
+            instruction = ir.CopyBlob(dst, src, amount)
         elif itype == "exit":
             instruction = ir.Exit()
         elif itype == "return":
